@@ -15,7 +15,7 @@ def families : List (List String × (List String → String → Verdict)) := [
   (["song"], Song.handle),
   (["filter"], Filter.handle),
   (["typed"], Typed.handle),
-  (["loop"], Loop.handle),
+  (["loop", "loopx"], Loop.handle),
   (["pc"], Commands.handle),
 ]
 
